@@ -10,6 +10,20 @@ use crate::Result;
 /// - Optional file metadata after ';' on each line
 /// - Empty lines are ignored
 pub fn parse_listfile(data: &[u8]) -> Result<Vec<String>> {
+    parse_listfile_with(data, |_| false)
+}
+
+/// Parse the (listfile) of an archive whose members can be looked up
+///
+/// `;` and `#` are legal characters in MPQ file names, so a line like
+/// `#notes.txt` or `a;b.txt` is either comment / metadata syntax or the name
+/// of a member. `is_member` is asked about every such line as a whole: when it
+/// names a member of the archive the line is kept verbatim, otherwise it is
+/// read like [`parse_listfile`] reads it.
+pub fn parse_listfile_with<F>(data: &[u8], mut is_member: F) -> Result<Vec<String>>
+where
+    F: FnMut(&str) -> bool,
+{
     let content = match std::str::from_utf8(data) {
         Ok(s) => s.to_string(),
         Err(_) => {
@@ -23,6 +37,11 @@ pub fn parse_listfile(data: &[u8]) -> Result<Vec<String>> {
         .lines()
         .filter_map(|line| {
             let line = line.trim();
+
+            // A line with comment or metadata syntax can still be a member's name
+            if (line.starts_with('#') || line.contains(';')) && is_member(line) {
+                return Some(line.to_string());
+            }
 
             // Skip empty lines and comments
             if line.is_empty() || line.starts_with(';') || line.starts_with('#') {
@@ -90,6 +109,19 @@ mod tests {
         assert_eq!(files[0], "file1.txt");
         assert_eq!(files[1], "file2.dat");
         assert_eq!(files[2], "file3.bin");
+    }
+
+    #[test]
+    fn test_parse_listfile_with_member_names_using_comment_syntax() {
+        let content = b"# a comment\n#notes.txt\na;b.txt\nfile1.txt;12345\n; file2.txt";
+        let members = ["#notes.txt", "a;b.txt", "file1.txt", "file2.txt"];
+
+        let files = parse_listfile_with(content, |name| members.contains(&name)).unwrap();
+        assert_eq!(files, ["#notes.txt", "a;b.txt", "file1.txt"]);
+
+        // Without an archive to ask, the syntax wins
+        let files = parse_listfile(content).unwrap();
+        assert_eq!(files, ["a", "file1.txt"]);
     }
 
     #[test]
